@@ -157,6 +157,8 @@ def run(pid, rep, n_cases, plies):
                       replay_ops=cases[ci][: oi + 1], no_input=True)
     if pid == "C11":
         reimport_check(rep, cases, rust, stats)
+    if pid == "C01":
+        check_perft(rep, stats)
     stats["cases"] = len(cases)
     stats["corpus_cases"] = len(corpus)
     stats["distinct_positions"] = len(positions)
@@ -225,8 +227,8 @@ def analyze_case(pid, case, outs, queries, stats, kinds, positions):
         name = op.split(" ")[0]
         if out is None:
             return oi, "no answer (process died)"
-        if out and out[0].startswith("fault:"):
-            return oi, "engine panicked: " + out[0]
+        if out and any(l.startswith("fault:") for l in out):
+            return oi, "engine panicked: " + next(l for l in out if l.startswith("fault:"))
         if name == "new":
             last_obs, stack, pending, lists, eg, prev_f4 = None, [], "new", {}, None, None
             if out != ["ok"]:
@@ -488,3 +490,43 @@ def check_c05(rep, tier):
     if first and not rep.violations:
         rep.violation("model-vs-impl", "correspondence:C05:variants", f"impl {first[1]} model {first[2]}", replay_ops=first[0], no_input=True)
     return stats, cases
+
+
+def check_perft(rep, stats):
+    """C01 corollary on the real binary: `rustybait perft <d> <fen>` (performance_test.rs + main.rs) against the rules'
+    count of legal lines (Spec.perft) and, line by line, against the model (perft_counts_are_the_rules')."""
+    import subprocess
+    try:
+        core.cargo_engine()
+    except core.Broken as b:
+        rep.violation("build", f"build:{b.name}", b.detail[-800:], no_input=True)
+        return
+    from . import searchchk
+    sane = searchchk.spec_queries(["spec_sane " + core.fen4(f) for f in roots.ALL])
+    rs = [f for f in roots.ALL if sane.get("spec_sane " + core.fen4(f)) == "sane"]
+    jobs = [(f, 2) for f in rs[:: (5 if rep.tier == "quick" else 1)]] + [(roots.START, 3)]
+    if rep.tier == "thorough":
+        jobs += [(f, 3) for f in rs[::2]] + [(roots.START, 4), (roots.PERFT[1], 3)]
+    spec = searchchk.spec_queries(["spec_perft %d %s" % (d, core.fen4(f)) for f, d in jobs], chunk=1, timeout=900)
+    model, _ = core.run_lean([["new " + f, "perft %d" % d] for f, d in jobs], timeout=900)
+    for (f, d), m in zip(jobs, model):
+        try:
+            p = subprocess.run([core.ENGINE, "perft", str(d), f], capture_output=True, text=True, errors="replace", timeout=600)
+        except subprocess.TimeoutExpired:
+            rep.violation("impl-vs-spec", f"perft {d} did not finish @ {f}", "", replay_ops=[f"rustybait perft {d} '{f}'"], no_input=True)
+            continue
+        lines = [l for l in p.stdout.split("\n") if l.strip()]
+        stats["perft_runs"] += 1
+        want = spec.get("spec_perft %d %s" % (d, core.fen4(f)))
+        if p.returncode != 0 or not lines or not lines[-1].strip().isdigit():
+            rep.violation("impl-vs-spec", f"perft {d} failed @ {f}", (p.stdout + p.stderr)[-400:], replay_ops=[f"rustybait perft {d} '{f}'"])
+            continue
+        total = lines[-1].strip()
+        stats["perft_nodes"] += int(total)
+        if want is not None and want.isdigit() and total != want:
+            rep.violation("impl-vs-spec", f"perft {d} counts {total} lines, the rules count {want} @ {f}", "\n".join(lines[-12:]),
+                          replay_ops=[f"rustybait perft {d} '{f}'"])
+        if m and m[1] and not rep.violations:
+            ml = [x for x in m[1] if not x.startswith("sum ")]
+            if ml != lines[:-1]:
+                rep.violation("model-vs-impl", f"correspondence:C01:perft {d} @ {f}", f"engine {lines[:6]} model {ml[:6]}", replay_ops=["new " + f, "perft %d" % d], no_input=True)
